@@ -123,7 +123,22 @@ def generate(verif, repo, bdir):
             common[(san, src, cxx_)] = o
 
     # --- binaries ---------------------------------------------------------------------------------
+    def expand(b, key):
+        """<key>_globs: glob patterns relative to the repository, resolved against THIS tree"""
+        out = list(b.get(key, []))
+        for pat in b.get(key + "_globs", []):
+            for f in sorted(glob.glob(os.path.join(repo, pat), recursive=True)):
+                rel = os.path.relpath(f, repo)
+                if rel.endswith("fork_windows.cc") or rel in b.get("exclude", []):
+                    continue
+                if rel not in out:
+                    out.append(rel)
+        return out
+
     for name, b in sorted(props.BINARIES.items()):
+        b = dict(b)
+        for key in ("shadow", "shadow_srcs", "repo_srcs"):
+            b[key] = expand(b, key)
         main = b.get("main", "rc")
         san = "fuzz" if main == "fuzz" else b.get("san", "asan")
         abi = b.get("abi", 1)
